@@ -86,7 +86,8 @@ def one_run(args):
     for tag, addr in marks.items():
         for m in re.finditer(rb"^I  " + addr + rb",\d+$", data, re.M): ms.append((m.start(), tag, m.end()))
     ms.sort()
-    evs = [{"e": "Call", "api": api, "pub": var}]
+    # comparison key: the public variant and a digest of the public ARGUMENTS of the call
+    evs = [{"e": "Call", "api": api, "pub": [var] + list(hashlib.sha256(bytes(side.get("pubin", []))).digest()[:8])}]
     start = None; di = 0; nlines = 0
     for pos, tag, end in ms:
         if tag == "B": start = end; continue
